@@ -6,6 +6,7 @@ import (
 	"fmt"
 	"go/token"
 	"go/types"
+	"sort"
 
 	"golang.org/x/tools/go/ssa"
 )
@@ -110,14 +111,176 @@ func c09WorkerLoop(c *Ctx, r *Result) {
 		return
 	}
 	run := runSites[0]
+	realRun := run
+	// the Run may sit in a helper that runs the task it is handed (runTask(task), runIdle(idle) →
+	// runTask(idle)): the helper must run its parameter outside any loop, and the calls of the helper
+	// stand for the Run in the worker loop — they must exclude one another
+	stripTask := func(v ssa.Value) ssa.Value {
+		for d := 0; d < 6; d++ {
+			switch x := v.(type) {
+			case *ssa.MakeInterface:
+				v = x.X
+			case *ssa.ChangeInterface:
+				v = x.X
+			case *ssa.ChangeType:
+				v = x.X
+			case *ssa.TypeAssert:
+				v = x.X
+			case *ssa.Extract:
+				if ta, ok := x.Tuple.(*ssa.TypeAssert); ok && x.Index == 0 {
+					v = ta.X
+				} else {
+					return v
+				}
+			default:
+				return v
+			}
+		}
+		return v
+	}
+	effSites := []ssa.CallInstruction{run}
+	helperWhy := ""
+	for depth := 0; depth < 3 && helperWhy == ""; depth++ {
+		prm, isPrm := stripTask(effSites[0].Common().Value).(*ssa.Parameter)
+		if effSites[0] != run {
+			prm, isPrm = nil, false
+			// a helper call: the task is one of its arguments
+			h := effSites[0].Common().StaticCallee()
+			for _, a := range effSites[0].Common().Args {
+				if p, ok := stripTask(a).(*ssa.Parameter); ok && h != nil && (types.Identical(p.Type().Underlying(), taskIface) || types.Implements(p.Type(), taskIface)) {
+					prm, isPrm = p, true
+				}
+			}
+		}
+		if !isPrm {
+			break
+		}
+		h := prm.Parent()
+		for _, es := range effSites {
+			if es.Parent() != h {
+				helperWhy = "the task is run through helpers that do not agree on the function they are called from"
+			}
+			if inLoop(es.Block()) {
+				helperWhy = c.FuncKey(h) + " runs the task it is handed inside a loop"
+			}
+		}
+		if len(effSites) > 1 {
+			for _, a := range effSites {
+				for _, b := range effSites {
+					if a != b && canReach(a, b) {
+						helperWhy = c.FuncKey(h) + " can run the task it is handed twice"
+					}
+				}
+			}
+		}
+		idx := paramIndex(h, prm)
+		var next []ssa.CallInstruction
+		if node := c.CHA().Nodes[h]; node != nil {
+			for _, e := range node.In {
+				if e.Caller.Func.Synthetic != "" {
+					continue
+				}
+				if e.Site == nil || e.Site.Common().StaticCallee() != h {
+					helperWhy = c.FuncKey(h) + " (which runs the task it is handed) is called dynamically"
+					continue
+				}
+				args := callArgs(e.Site.Common())
+				if idx < 0 || idx >= len(args) {
+					continue
+				}
+				next = append(next, e.Site)
+			}
+		}
+		if len(next) == 0 {
+			helperWhy = c.FuncKey(h) + " runs the task it is handed but is never called"
+			break
+		}
+		sort.Slice(next, func(i, j int) bool { return c.Pos(c.InstrPos(next[i])) < c.Pos(c.InstrPos(next[j])) })
+		// all callers in one function?
+		same := true
+		for _, nx := range next {
+			if nx.Parent() != next[0].Parent() {
+				same = false
+			}
+		}
+		if !same {
+			// runIdle → runTask and run → runTask: follow the callers that are themselves helpers first
+			var inLoopFn, inHelpers []ssa.CallInstruction
+			for _, nx := range next {
+				hasTaskParam := false
+				for _, a := range callArgs(nx.Common()) {
+					if _, ok := stripTask(a).(*ssa.Parameter); ok {
+						hasTaskParam = true
+					}
+				}
+				if hasTaskParam {
+					inHelpers = append(inHelpers, nx)
+				} else {
+					inLoopFn = append(inLoopFn, nx)
+				}
+			}
+			// resolve the helper callers one level up and merge with the direct ones
+			merged := append([]ssa.CallInstruction{}, inLoopFn...)
+			for _, hx := range inHelpers {
+				hh := hx.Parent()
+				if inLoop(hx.Block()) {
+					helperWhy = c.FuncKey(hh) + " runs the task it is handed inside a loop"
+				}
+				if node := c.CHA().Nodes[hh]; node != nil {
+					for _, e := range node.In {
+						if e.Caller.Func.Synthetic != "" {
+							continue
+						}
+						if e.Site == nil || e.Site.Common().StaticCallee() != hh {
+							helperWhy = c.FuncKey(hh) + " (which runs the task it is handed) is called dynamically"
+							continue
+						}
+						merged = append(merged, e.Site)
+					}
+				}
+			}
+			next = merged
+			for _, nx := range next {
+				if nx.Parent() != next[0].Parent() {
+					helperWhy = "the helpers that run a task are called from more than one function"
+				}
+			}
+		}
+		effSites = next
+	}
+	if len(effSites) > 0 && effSites[0] != run {
+		run = effSites[0]
+	}
 	fn := run.Parent()
 	key := c.FuncKey(fn)
 	pos := c.Pos(c.InstrPos(run))
 	// the task run is the value obtained from the dequeue call of this iteration
-	recv := stripConv(run.Common().Value)
+	taskOf := func(site ssa.CallInstruction) ssa.Value {
+		if site == realRun {
+			return stripConv(site.Common().Value)
+		}
+		for _, a := range callArgs(site.Common()) {
+			sv := stripTask(a)
+			if types.Identical(sv.Type().Underlying(), taskIface) {
+				return stripConv(sv)
+			}
+		}
+		return nil
+	}
+	recv := taskOf(run)
+	if recv == nil {
+		recv = stripConv(run.Common().Value)
+	}
 	getCall, _ := recv.(*ssa.Call)
 	ok := false
 	why := ""
+	// several helper calls in the loop: all on the same dequeued value, and none reaches another
+	// without a new dequeue (checked below for `run`; here pairwise)
+	for _, a := range effSites {
+		if ta := taskOf(a); a != run && ta != recv {
+			helperWhy = "the helpers that run a task are not all applied to the task dequeued in this iteration"
+		}
+	}
 	if phi, isPhi := recv.(*ssa.Phi); isPhi && getCall == nil && isLoopHeaderPhi(phi) {
 		// `for task := get(); task != nil; task = get()`: every value entering the loop variable is
 		// the result of a call of the same dequeue function, and Run cannot run again without
@@ -175,6 +338,26 @@ func c09WorkerLoop(c *Ctx, r *Result) {
 			}
 		}
 	}
+	if ok && helperWhy != "" {
+		ok, why = false, helperWhy
+	}
+	if ok && len(effSites) > 1 {
+		var avoid *ssa.BasicBlock
+		if getCall != nil {
+			avoid = getCall.Block()
+		} else if phi, isPhi := recv.(*ssa.Phi); isPhi {
+			avoid = phi.Block()
+		}
+		for _, a := range effSites {
+			for _, b := range effSites {
+				ai, _ := a.(ssa.Instruction)
+				bi, _ := b.(ssa.Instruction)
+				if avoid != nil && ai != nil && bi != nil && reachesWithout(ai, bi, avoid) {
+					ok, why = false, "a task can be run a second time (through another helper call) without a new dequeue"
+				}
+			}
+		}
+	}
 	if ok {
 		r.Instance("R09b-run-once", key+"#task.Run", pos, "ok", "Run is applied to the result of the dequeue of the same iteration; cannot repeat without a new dequeue", true)
 	} else {
@@ -186,10 +369,10 @@ func c09WorkerLoop(c *Ctx, r *Result) {
 		site := fmt.Sprintf("%s#task.HandleError#%d", c.FuncKey(h.Parent()), i)
 		hp := c.Pos(c.InstrPos(h))
 		good := false
-		if h.Parent() == fn {
-			runVal, _ := run.(ssa.Value)
+		if h.Parent() == realRun.Parent() {
+			runVal, _ := realRun.(ssa.Value)
 			// find an If on runVal != nil whose true successor dominates the HandleError block
-			for _, b := range fn.Blocks {
+			for _, b := range realRun.Parent().Blocks {
 				ifi, isIf := b.Instrs[len(b.Instrs)-1].(*ssa.If)
 				if !isIf {
 					continue
